@@ -334,6 +334,23 @@ Definition apply (E : menv) (fresh : N) (m : modifier) (c : contact) : contact *
   if modified then let '(c2, evs2) := reevaluate_groups E c1 in (c2, evs ++ evs2, true)
   else (c1, evs, false).
 
+(* ---- what the idempotence theorem (proofs/ModifiersProofs.v) needs to know about gocommon/urns, as a
+   computable test so that the correspondence run evaluates it on every case: for an appending URNs modifier,
+   Normalize is stable up to Identity on the URNs it makes valid; for a channel modifier, SetChannel with that
+   channel is idempotent and keeps the scheme on the URNs the contact holds ---------------------------------- *)
+Definition mod_env_ok (E : menv) (m : modifier) (c : contact) : bool :=
+  match m with
+  | MURNs us UAppend =>
+      forallb (fun u => negb (urn_valid E (urn_normalize E u))
+                        || N.eqb (urn_identity E (urn_normalize E (urn_normalize E u)))
+                                 (urn_identity E (urn_normalize E u))) us
+  | MChannel ch =>
+      forallb (fun u => N.eqb (urn_set_channel E ch (urn_set_channel E ch u)) (urn_set_channel E ch u)
+                        && N.eqb (urn_scheme E (urn_set_channel E ch u)) (urn_scheme E u))
+              (raw_urns (c_urns c))
+  | _ => true
+  end.
+
 (* ---- the engine's writers of the session contact (flows/engine/session.go, flows/resumes/base.go) ---- *)
 
 (* session.ensureQueryBasedGroups *)
